@@ -82,6 +82,14 @@ fn main() -> std::io::Result<()> {
     process::exit(exit_code);
 }
 
+// The reader going away (pager quit, closed pipe) is not an error.
+fn quiet_on_broken_pipe(result: std::io::Result<()>) -> std::io::Result<()> {
+    match result {
+        Err(error) if error.kind() == ErrorKind::BrokenPipe => Ok(()),
+        result => result,
+    }
+}
+
 #[cfg(not(tarpaulin_include))]
 // An Ok result contains the desired process exit code. Note that 1 is used to
 // report that two files differ when delta is called with two positional
@@ -95,10 +103,10 @@ pub fn run_app(
     let (call, opt) = cli::Opt::from_args_and_git_config(args, &env, assets);
 
     if let Call::Version(msg) = call {
-        writeln!(std::io::stdout(), "{}", msg.trim_end())?;
+        quiet_on_broken_pipe(writeln!(std::io::stdout(), "{}", msg.trim_end()))?;
         return Ok(0);
     } else if let Call::Help(msg) = call {
-        OutputType::oneshot_write(msg)?;
+        quiet_on_broken_pipe(OutputType::oneshot_write(msg))?;
         return Ok(0);
     } else if let Call::SubCommand(_, cmd) = &call {
         // Set before creating the Config, which already asks for the calling process
@@ -151,7 +159,7 @@ pub fn run_app(
     if _show_config {
         let stdout = io::stdout();
         let mut stdout = stdout.lock();
-        subcommands::show_config::show_config(&config, &mut stdout)?;
+        quiet_on_broken_pipe(subcommands::show_config::show_config(&config, &mut stdout))?;
         return Ok(0);
     }
 
